@@ -21,12 +21,13 @@ var c06Specs = []famSpec{
 	{Family: "rc-nested", FreshQ: 4000, FreshT: 200000},
 	{Family: "rc-simple", FreshQ: 6000, FreshT: 400000},
 	{Family: "rc-degenerate", FreshQ: 3000, FreshT: 100000},
+	{Family: "rc-big", FreshQ: 300, FreshT: 10000},
 }
 
 func init() {
 	register(&run.Prop{
 		ID: "C06",
-		Rule: "case = rectangle + closed path set. Paths from the rand-dense / lattice / rand-wide / nested / degenerate generators; rectangle random inside the bounding box, snapped to path vertex coordinates (touching/containing vertices), containing everything, disjoint, or a thin sliver. " +
+		Rule: "case = rectangle + closed path set. Paths from the rand-dense / lattice / rand-wide / nested / degenerate generators, rc-big: closed curves of 200..1500 vertices or 20..60 star polygons; rectangle random inside the bounding box, snapped to path vertex coordinates (touching/containing vertices), containing everything, disjoint, or a thin sliver. " +
 			"Checked: every result vertex within the rectangle (<= 1 outside); total winding of the result equals the input's at integer points inside the rectangle > 2 from its boundary and from every input edge, and is 0 at points > 2 outside; " +
 			"per path: bounds inside -> returned verbatim, bounds disjoint -> nothing; a reused RectClip64 object gives the same result as a fresh one. Non-trivial = some path crosses the rectangle boundary (neither fast path) and >= 1 eligible interior point; distinct by input digest.",
 		Assumptions: []string{"exact winding by 128-bit arithmetic; rectangles are built by the harness so their bounds are known without reading unexported fields"},
@@ -126,6 +127,16 @@ func rcInput(id run.CaseID) (Paths, rectI) {
 				paths = append(paths, gen.Comb(r, cx, cy, 1+r.Intn(5), max(R/20, 2), max(R/3, 8), r.Bool()))
 			} else {
 				paths = append(paths, gen.StarPoly(r, cx, cy, float64(R)*0.3, float64(R)*0.9, 3+r.Intn(12), r.Bool()))
+			}
+		}
+	case "rc-big": // paths of 200..1500 vertices (noisy closed curves crossing the rectangle many times), or 20..60 paths
+		if r.Bool() {
+			a, b := gen.BigNR(r, 200, 1500, []int64{20000, 1000000, 1 << 27})
+			paths = append(a, b...)
+		} else {
+			R := gen.PickOf(r, int64(1000), 1<<20, 1<<27)
+			for k := 0; k < 20+r.Intn(41); k++ {
+				paths = append(paths, gen.StarPoly(r, r.Range(-R, R), r.Range(-R, R), float64(R)*0.05, float64(R)*0.3, 3+r.Intn(12), r.Bool()))
 			}
 		}
 	case "rc-degenerate":
